@@ -1396,6 +1396,14 @@ func Run(c *hx.Ctx) error {
 	if err := runG(c, r.Fork(), gcases); err != nil {
 		return err
 	}
+	// shared-storage retention decided by the catalogue (shared.go)
+	scases := n / 2
+	if v := c.Arg("scases", ""); v != "" {
+		scases, _ = strconv.Atoi(v)
+	}
+	if err := runS(c, r.Fork(), scases); err != nil {
+		return err
+	}
 	c.Stats.Notes = append(c.Stats.Notes,
 		"time.Now is not injectable: every case keeps a 2 s margin around end+duration and is redone if it took longer than 1.2 s; the exact boundary instant is covered by the regenerated expression and expired_iff only",
 		"the write-side window test (checkDBRP / routeAndMapOriginRows) is regenerated and proved about, not driven dynamically")
